@@ -5,7 +5,174 @@ From Coq Require Import List QArith.
 From Sismic Require Import Base Chart Interp Bdd.
 From SismicProofs Require Import BddProofs.
 Import ListNotations.
+Open Scope string_scope.
 
-Theorem doc_samples_ok_thm : forall ci, Doc.samples_ok ci Doc.patterns = true.
+(* environment.py + steps.py over ANY interpreter: a then step all of whose predecessors passed, preceded by a when step and naming existing states, is reported passed iff its fact holds of (the block of when steps, the plain interpreter after the same given/when steps) *)
+Theorem C19_verdict_thm :
+  forall (I : Type) (i_queue : event -> I -> I) (i_advance : Q -> I -> I)
+           (i_execute : I -> I * option (list macrostep)) (i_config : I -> list name) 
+           (i_final : I -> bool) (i_ctx : I -> list (name * value)) (i_eval : I -> string -> option bool)
+           (states : list name) (fuel : nat) (feat : feature) (pre : list step) (t : assertion)
+           (rest : list step) (i0 : I) (sts : list status),
+         run_scenario I i_queue i_advance i_execute i_config i_final i_ctx i_eval states fuel feat
+           (pre ++ SThen t :: rest) i0 = Some sts ->
+         (forall j : nat, (j < Datatypes.length pre)%nat -> nth_error sts j = Some Passed) ->
+         (exists a : action, In (SAct When a) pre) ->
+         states_ok states t = true ->
+         exists (i : I) (h : list hitem) (blk : list macrostep),
+           plain_steps I i_queue i_advance i_execute fuel feat pre i0 = Some (i, h) /\
+           is_block h blk /\
+           (nth_error sts (Datatypes.length pre) = Some Passed <-> fact I i_config i_final i_ctx i_eval t blk i).
+Proof. exact C19_verdict. Qed.
+Print Assumptions C19_verdict_thm.
+
+(* every step after the first one that did not pass is skipped *)
+Theorem C19_skip_thm :
+  forall (I : Type) (i_queue : event -> I -> I) (i_advance : Q -> I -> I)
+           (i_execute : I -> I * option (list macrostep)) (i_config : I -> list name) 
+           (i_final : I -> bool) (i_ctx : I -> list (name * value)) (i_eval : I -> string -> option bool)
+           (states : list name) (fuel : nat) (feat : feature) (steps : list step) (i0 : I) 
+           (sts : list status) (j : nat) (s : status),
+         run_scenario I i_queue i_advance i_execute i_config i_final i_ctx i_eval states fuel feat steps i0 =
+         Some sts ->
+         nth_error sts j = Some s ->
+         s <> Passed ->
+         forall k : nat, (j < k)%nat -> (k < Datatypes.length steps)%nat -> nth_error sts k = Some Skipped.
+Proof. exact C19_skip. Qed.
+Print Assumptions C19_skip_thm.
+
+(* a given/when step passes iff its documented effect on a plain interpreter is defined and then leaves exactly that interpreter state; the documented effect kind by kind (queue with parameters, clock advance, repeat n = n-fold, reproduce = the given/when steps of the named scenario without their tables), each followed by execute() *)
+Theorem C19_given_when_thm :
+  forall (I : Type) (i_queue : event -> I -> I) (i_advance : Q -> I -> I)
+           (i_execute : I -> I * option (list macrostep)),
+         (forall (fuel : nat) (feat : feature) (k : gw) (a : action) (c c' : ctx I),
+          inv I c ->
+          run_act I i_queue i_advance i_execute fuel feat k a c = Some (c', Passed) <->
+          (exists (i' : I) (ms : list macrostep),
+             plain_act I i_queue i_advance i_execute fuel feat a (c_interp c) = Some (i', ms) /\
+             c' = upd I k c i' ms)) /\
+         (forall (f : nat) (feat : feature) (i : I),
+          plain_act I i_queue i_advance i_execute (S f) feat ANothing i = exec I i_execute i) /\
+         (forall (f : nat) (feat : feature) (n : name) (tbl : ptable) (inl_ : option (name * value)) (i : I),
+          plain_act I i_queue i_advance i_execute (S f) feat (ASend n tbl inl_) i =
+          exec I i_execute (i_queue {| e_kind := External; e_name := n; e_data := build_params tbl inl_ |} i) /\
+          (forall (k : name) (v : value),
+           In (k, v) (build_params tbl inl_) <-> last_binding k (bindings tbl inl_) = Some v)) /\
+         (forall (f : nat) (feat : feature) (q : Q) (i : I),
+          plain_act I i_queue i_advance i_execute (S f) feat (AWait q) i =
+          (if Qle_bool 0 q then exec I i_execute (i_advance q i) else None)) /\
+         (forall (f : nat) (feat : feature) (a : action) (n : nat) (i : I),
+          plain_act I i_queue i_advance i_execute (S f) feat (ARepeat a n) i =
+          match seq_of I (plain_act I i_queue i_advance i_execute f feat) (repeat a n) i with
+          | Some (i1, m1) =>
+              match exec I i_execute i1 with
+              | Some (i2, m2) => Some (i2, (m1 ++ m2)%list)
+              | None => None
+              end
+          | None => None
+          end) /\
+         (forall (f : nat) (feat : feature) (nm : string) (i : I),
+          plain_act I i_queue i_advance i_execute (S f) feat (AReproduce nm) i =
+          match find_scenario nm feat with
+          | Some steps =>
+              match
+                seq_of I (plain_act I i_queue i_advance i_execute f feat) (map strip_tables (actions_of steps))
+                  i
+              with
+              | Some (i1, m1) =>
+                  match exec I i_execute i1 with
+                  | Some (i2, m2) => Some (i2, (m1 ++ m2)%list)
+                  | None => None
+                  end
+              | None => None
+              end
+          | None => None
+          end) /\
+         (forall (pa : action -> I -> option (I * list macrostep)) (a : action) (l : list action) (i : I),
+          seq_of I pa [] i = Some (i, []) /\
+          seq_of I pa (a :: l) i =
+          match pa a i with
+          | Some (i1, m1) =>
+              match seq_of I pa l i1 with
+              | Some (i2, m2) => Some (i2, (m1 ++ m2)%list)
+              | None => None
+              end
+          | None => None
+          end).
+Proof. exact C19_given_when. Qed.
+Print Assumptions C19_given_when_thm.
+
+(* context.monitored_trace = the macro steps of the when steps of the block delimited as environment.py does (since the then that precedes the most recent when; given steps inside do not end it and contribute nothing); None iff no when yet *)
+Theorem C19_block_thm :
+  forall (I : Type) (i_queue : event -> I -> I) (i_advance : Q -> I -> I)
+           (i_execute : I -> I * option (list macrostep)) (i_config : I -> list name) 
+           (i_final : I -> bool) (i_ctx : I -> list (name * value)) (i_eval : I -> string -> option bool)
+           (states : list name) (fuel : nat) (feat : feature) (steps : list step) (i0 : I) 
+           (c : ctx I),
+         ctx_after I i_queue i_advance i_execute i_config i_final i_ctx i_eval states fuel feat steps
+           (ctx_init I i0) = Some c ->
+         exists (i : I) (h : list hitem),
+           plain_steps I i_queue i_advance i_execute fuel feat steps i0 = Some (i, h) /\
+           c_interp c = i /\
+           (forall blk : list macrostep, is_block h blk -> c_trace c = Some blk) /\
+           (existsb is_when h = true -> exists blk : list macrostep, is_block h blk) /\
+           (existsb is_when h = false -> c_trace c = None).
+Proof. exact C19_block. Qed.
+Print Assumptions C19_block_thm.
+
+(* every predicate of sismic/testing.py is equivalent to its declarative reading over the micro steps *)
+Theorem C19_testing_thm :
+  forall (teq : nat -> nat -> bool) (steps : list macrostep),
+         (forall n : name, state_is_entered steps n = true <-> entered_in steps n) /\
+         (forall n : name, state_is_exited steps n = true <-> exited_in steps n) /\
+         (forall (n : option name) (ps : list (name * value)),
+          event_is_fired steps n ps = true <-> fired_in steps n ps) /\
+         (forall (n : option name) (ps : list (name * value)),
+          event_is_consumed steps n ps = true <-> consumed_in steps n ps) /\
+         (forall t : option nat, transition_is_processed teq steps t = true <-> processed_in teq steps t) /\
+         (no_event_is_fired steps = true <-> ~ any_sent steps).
+Proof. exact C19_testing. Qed.
+Print Assumptions C19_testing_thm.
+
+(* the decidable checker the harness evaluates on the implementation is the declarative fact *)
+Theorem fact_b_sound_thm :
+  forall I : Type,
+         (I -> I * option (list macrostep)) ->
+         forall (i_config : I -> list name) (i_final : I -> bool) (i_ctx : I -> list (name * value))
+           (i_eval : I -> string -> option bool) (t : assertion) (blk : list macrostep) 
+           (i : I),
+         fact_b I i_config i_final i_ctx i_eval t blk i = true <-> fact I i_config i_final i_ctx i_eval t blk i.
+Proof. exact fact_b_sound. Qed.
+Print Assumptions fact_b_sound_thm.
+
+(* over the documented pattern list (= the list extracted from steps.py, obligation regenerated on every run) every predefined step in documented spelling with plain arguments is dispatched to the intended function with the intended arguments, under both matching modes *)
+Theorem C19_dispatch_thm :
+  forall (ci : bool) (d : docstep),
+         doc_plain ci d = true ->
+         dispatch ci Doc.patterns (doc_type d) (doc_text d) = DMatch (doc_fn d) (doc_args d).
+Proof. exact C19_dispatch. Qed.
+Print Assumptions C19_dispatch_thm.
+
+(* the quotes of expression "..." holds are never part of the expression (past defect) *)
+Theorem C19_expression_unquoted_thm :
+  forall (ci : bool) (e : string),
+         nonempty e = true ->
+         step_of_text ci Doc.patterns TyThen ("expression """ +++ e +++ """ holds") [] =
+         Some (SThen (TExprHolds e)) /\
+         step_of_text ci Doc.patterns TyThen ("expression """ +++ e +++ """ does not hold") [] =
+         Some (SThen (TExprNotHolds e)).
+Proof. exact C19_expression_unquoted. Qed.
+Print Assumptions C19_expression_unquoted_thm.
+
+(* completeness of the matcher for plain arguments, for arbitrary patterns *)
+Theorem match_complete_thm :
+  forall (ci : bool) (p : pattern) (args : list string) (s : string) (b : list binding),
+         plain_for ci p args s b -> match_elems ci p s = Some b.
+Proof. exact match_complete. Qed.
+Print Assumptions match_complete_thm.
+
+(* every documented spelling with sample arguments decodes to the intended step of the model *)
+Theorem doc_samples_ok_thm :
+  forall ci : bool, Doc.samples_ok ci Doc.patterns = true.
 Proof. exact doc_samples_ok. Qed.
 Print Assumptions doc_samples_ok_thm.
